@@ -41,7 +41,7 @@ class Site:
 # ----------------------------------------------------------------------------- kind 0: PCA / MAF
 def gen_pca(ctx, rng, quick):
     nvar = rng.choice([1, 2, 2, 3, 3, 4, 5, 6])
-    n = rng.randint(nvar + 3, 14 if quick else 40)
+    n = rng.randint(2 * nvar + 3, 2 * nvar + (12 if quick else 40))
     dist = rng.choice(['mixed', 'skewed', 'ties', 'wide'])
     k = nvar
     A = [[rng.randint(-3, 3) for _ in range(k)] for _ in range(nvar)]
@@ -53,10 +53,10 @@ def gen_pca(ctx, rng, quick):
         elif dist == 'ties': u = [Fraction(rng.randint(0, 2)) for _ in range(k)]
         else: u = [Fraction(rng.randint(-2 ** 20, 2 ** 20), 2 ** rng.randint(0, 12)) for _ in range(k)]
         for i in range(nvar): cols[i][s] = sum(A[i][j] * u[j] for j in range(k)) + rng.choice([0, 0, 100, -37])* (1 if i == 0 else 0)
-    p_na = rng.choice([0, 0, .1, .25])
-    for i in range(nvar):
-        for s in range(n):
-            if rng.random() < p_na: cols[i][s] = None
+    p_na = rng.choice([0, 0, .15, .3])       # heterotopic samples: some variables undefined
+    for s in range(n):
+        if rng.random() < p_na:
+            for i in rng.sample(range(nvar), rng.randint(1, nvar)): cols[i][s] = None
     sel = [rng.random() < .8 for _ in range(n)] if rng.random() < .4 else []
     xs = [Fraction(rng.randint(0, 40), 2) for _ in range(n)]; ys = [Fraction(rng.randint(0, 40), 2) for _ in range(n)]
     mode = rng.choice([0, 0, 1])
